@@ -461,15 +461,33 @@ def jv_text(ctx, text, case):
     if has_surrogate(text):
         ctx.count("model:jv-text:unsupported:raw lone surrogate")
         return
+    # fragment test on everything the decoder *reads*, including members later overwritten by a duplicate key
+    seen = {"float": False, "surrogate": False}
+
+    def _float(x):
+        seen["float"] = True
+        return float(x)
+
+    def _const(x):
+        seen["float"] = True
+        return float(x.replace("Infinity", "inf"))
+
+    def _pairs(pairs):
+        if any(has_surrogate(k) or has_surrogate(x) for k, x in pairs):
+            seen["surrogate"] = True
+        return dict(pairs)
+
     try:
-        v = json.loads(text)
+        v = json.loads(text, parse_float=_float, parse_constant=_const, object_pairs_hook=_pairs)
         ok = True
     except (ValueError, RecursionError):
         v, ok = None, False
     r = ctx.driver.call("jv.loads", text=text)
     if ok:
         try:
-            if has_surrogate(v):
+            if seen["float"]:
+                raise Unsupported("float")
+            if seen["surrogate"] or has_surrogate(v):
                 raise Unsupported("lone surrogate")
             e = enc(v)
         except Unsupported as u:
